@@ -16,7 +16,8 @@ ID = "C08"
 RULE = ("operation sequences (4-25 ops) over a pool of live values (str, ColorFmt chunks, CHText): new str / "
         "fmt(str) for 10 formatters (two pairs built from identical arguments) / CHText(*parts incl. lists) / "
         "a+b / str+a / chunk+a (reflected) / a+=b (incl. b is a) / sep.join(items) / a[i] / a[i:j] with bounds in "
-        "[-len-3, len+3] or None / fixed_len / format(a, [[fill]align][width][s]). Non-trivial = the sequence "
+        "[-len-3, len+3] or None / fixed_len / format(a, [[fill]align][width][s]) / tail_probe (rejected lookups behind the "
+        "end, += of the last chunk's colour, lookups in the new part). Non-trivial = the sequence "
         "contains an index/slice of a text with >=2 colour runs, or a negative/out-of-range bound on such a text, "
         "or a concatenation that merges same-coloured neighbours, or a += a; distinct by hash of the operation list.")
 ASSUMPTIONS = [
@@ -256,9 +257,47 @@ def apply_op(ctx, op):
             if t:
                 model += models[s]
             model += models[k]
-        ctx.add(vals[s].join([vals[k] for k in idxs]), model)
+        items = [vals[k] for k in idxs]
+        form = op[3] if len(op) > 3 else "list"
+        arg = {"list": lambda: items, "tuple": lambda: tuple(items), "iter": lambda: iter(items),
+               "gen": lambda: (x for x in items), "map": lambda: map(lambda x: x, items)}[form]()
+        ctx.add(vals[s].join(arg), model)
         ctx.classes.add("join")
+        if form != "list":
+            ctx.classes.add("join_argument_is_" + form)
+        if isinstance(vals[s], C.CHText.Chunk):
+            ctx.classes.add("join_separator_is_chunk")
         return f"v{s}.join({idxs})"
+    if kind == "tail_probe":
+        # a history on ONE text: lookups at / behind its end (rejected or empty), then an in-place extension by text of the
+        # colour of its last character (merges into the last chunk), then lookups inside the new part
+        a = ref(op[1])
+        v, m = vals[a], models[a]
+        if not isinstance(v, C.CHText):
+            return None
+        L = len(m)
+        try:
+            got = v[L + op[2] % 3]
+            ctx.fail("index_out_of_range_accepted", f"v{a}[{L + op[2] % 3}] with len {L} -> {got!r}")
+        except IndexError:
+            pass
+        if op[2] % 2:
+            ctx.add(v[L:L + 3], [])
+        txt = op[3] or "zz"
+        last = m[-1][1] if m else sgr.DEFAULT
+        fi = next((k for k, st_ in enumerate(ctx.states) if st_ == last), None)
+        v += (txt if fi is None or last == sgr.DEFAULT else ctx.fmts[fi](txt))
+        if v is not vals[a]:
+            ctx.fail("in_place_extension_returns_another_object", f"v{a} += ...")
+            return f"tail_probe v{a}"
+        m.extend((c, last) for c in txt)
+        ctx.add(v[L], [m[L]])
+        ctx.add(v[L:], m[L:])
+        ctx.add(v[-1], [m[-1]])
+        ctx.add(v.fixed_len(L + 1), m[:L + 1])
+        ctx.classes.add("lookups_around_an_in_place_extension_of_the_last_chunk")
+        ctx.nt = True
+        return f"tail_probe v{a} += {txt!r}"
     if kind in ("index", "slice", "fixed_len", "format"):
         a = ref(op[1])
         if not is_txt(vals[a]):
@@ -353,7 +392,7 @@ def evaluate(case):
     ctx = Ctx(C)
     nops = 0
     for op in case["ops"]:
-        if len(ctx.vals) >= 14 and op[0] in ("str", "chunk", "new", "add", "join", "index", "slice", "fixed_len"):
+        if len(ctx.vals) >= 14 and op[0] in ("str", "chunk", "new", "add", "join", "index", "slice", "fixed_len", "tail_probe"):
             # pool full: recycle - drop the oldest value
             ctx.vals.pop(0)
             ctx.models.pop(0)
@@ -409,11 +448,12 @@ def st_ops():
         st.tuples(st.just("add"), idx, idx),
         st.tuples(st.just("iadd"), idx, idx | st.lists(idx, max_size=3)),
         st.tuples(st.just("iadd"), idx, idx),
-        st.tuples(st.just("join"), idx, st.lists(idx, max_size=4)),
+        st.tuples(st.just("join"), idx, st.lists(idx, max_size=4), st.sampled_from(["list", "list", "tuple", "iter", "gen", "map"])),
         st.tuples(st.just("index"), idx, st.integers(0, 60)),
         st.tuples(st.just("slice"), idx, opt, opt),
         st.tuples(st.just("slice"), idx, opt, opt),
         st.tuples(st.just("fixed_len"), idx, st.integers(0, 40)),
+        st.tuples(st.just("tail_probe"), idx, st.integers(0, 5), st.text("ab 0", max_size=3)),
         st.tuples(st.just("format"), idx,
                   st.tuples(fill, st.sampled_from(["", "<", ">", "^"]), st.none() | st.integers(1, 40),
                             st.sampled_from(["", "", "s"]))),
